@@ -4,10 +4,14 @@ import (
 	"encoding/binary"
 	"errors"
 	"io"
+	"net"
 	"time"
 
 	"github.com/chihaya/chihaya/bittorrent"
 )
+
+// maxUDPPayload is the largest payload of a UDP datagram over IPv4.
+const maxUDPPayload = 65507
 
 // WriteError writes the failure reason as a null-terminated string.
 func WriteError(w io.Writer, txID []byte, err error) {
@@ -44,9 +48,14 @@ func WriteAnnounce(w io.Writer, txID []byte, resp *bittorrent.AnnounceResponse, 
 	_ = binary.Write(buf, binary.BigEndian, resp.Incomplete)
 	_ = binary.Write(buf, binary.BigEndian, resp.Complete)
 
-	peers := resp.IPv4Peers
+	peers, entrySize := resp.IPv4Peers, net.IPv4len+2
 	if v6Peers {
-		peers = resp.IPv6Peers
+		peers, entrySize = resp.IPv6Peers, net.IPv6len+2
+	}
+	// A response that does not fit into one datagram cannot be sent at all:
+	// carry as many peers as fit.
+	if fit := (maxUDPPayload - buf.Len()) / entrySize; len(peers) > fit {
+		peers = peers[:fit]
 	}
 
 	for _, peer := range peers {
